@@ -4,7 +4,7 @@ from __future__ import annotations
 import ast
 import symtable
 
-from ..astutil import calls_in, kwarg, names_in, access_path
+from ..astutil import calls_in, kwarg, names_in, access_path, returned_name, blueprint_vars
 from ..model import AnalysisError, norm, walk_own
 from ..report import RuleResult
 from .token import Closure
@@ -129,12 +129,13 @@ def rule_fillflow(ctx) -> RuleResult:
     prog = ctx.prog
     # (a) the per-call blueprint records the user's fill verbatim
     ia = prog.func("aggregations._initialize_aggregation")
-    stores = [n for n in walk_own(ia.node) if isinstance(n, ast.Assign) and any(access_path(t) == "agg.fill_value['user']" for t in n.targets)]
+    av = returned_name(ia) or "agg"
+    stores = [n for n in walk_own(ia.node) if isinstance(n, ast.Assign) and any(access_path(t) == f"{av}.fill_value['user']" for t in n.targets)]
     if not stores:
         raise AnalysisError("_initialize_aggregation: no store into agg.fill_value['user'] (anchor vanished)")
     for st in stores:
         txt = norm(st.value)
-        ok = txt == "fill_value" or txt == "agg.fill_value[agg.name]"
+        ok = txt == "fill_value" or txt == f"{av}.fill_value[{av}.name]"
         res.inst(f"_initialize_aggregation: agg.fill_value['user'] = {txt}", f"store|{txt}")
         if not ok:
             res.report(f"aggregations._initialize_aggregation|user-fill|{txt[:40]}", ia.where(st), ia.qualname,
@@ -155,8 +156,9 @@ def rule_fillflow(ctx) -> RuleResult:
             sinks.append((c, kwarg(c, "fill_value"), "reindex_(..., fill_value=<fill>)"))
     if len(sinks) < 2:
         raise AnalysisError(f"_finalize_results: {len(sinks)} fill sinks found (hand-confirmed: 2)")
+    bv = sorted(blueprint_vars(fr) or {"agg"})[0]
     for c, fexpr, what in sinks:
-        ok = _derives_from(cl, fexpr, "agg.fill_value['user']", allow_calls=("xrdtypes.maybe_promote", "maybe_promote"))
+        ok = _derives_from(cl, fexpr, f"{bv}.fill_value['user']", allow_calls=("xrdtypes.maybe_promote", "maybe_promote"))
         res.inst(f"_finalize_results: {what} with {norm(fexpr)}: derives only from agg.fill_value['user']: {ok}", f"sink|{what}")
         if not ok:
             res.report(f"core._finalize_results|fill-source|{what[:30]}", fr.where(c), fr.qualname,
